@@ -181,10 +181,14 @@ Definition rfuel : nat := 64 * 64.
 (* Lookup of a path string.  A trailing separator forces the final symlink to be
    followed and the result to be a directory (lookups only; creating calls with a
    trailing separator are outside the validated domain). *)
+(* Go refuses a string with a NUL byte before any system call is made (EINVAL) *)
+Definition has_nul (p : bytes) : bool := existsb (N.eqb 0) p.
+
 Definition resolve (c : ctx) (f : fs) (p : bytes) (follow : bool) : lres + errno :=
   match p with
   | [] => inr ENOENT
   | _ =>
+    if has_nul p then inr EINVAL else
     let md := ends_with_sep p in
     match walk rfuel f (c_root c) (if is_abs p then c_root c else c_cwd c) (pcs p) (follow || md) 0 with
     | inr e => inr e
@@ -300,7 +304,10 @@ Definition sys_mknod (c : ctx) (f : fs) (p : bytes) (typ mode rdev : N) : fs * r
   | inl r =>
     match l_ino r with
     | Some _ => (f, RErr EEXIST)
-    | None => (fst (create_at f r false (KSpecial typ rdev) (N.land mode perm_mask)), ROk)
+    | None =>
+      (* the device number is kept for character and block devices only *)
+      let rdev' := if N.eqb typ 8192 || N.eqb typ 24576 then rdev else 0 in
+      (fst (create_at f r false (KSpecial typ rdev') (N.land mode perm_mask)), ROk)
     end
   end.
 
@@ -308,6 +315,7 @@ Definition sys_symlink (c : ctx) (f : fs) (target p : bytes) : fs * result :=
   match target with
   | [] => (f, RErr ENOENT)
   | _ =>
+    if has_nul target then (f, RErr EINVAL) else
     match resolve c f p false with
     | inr e => (f, RErr e)
     | inl r =>
